@@ -1,6 +1,7 @@
 package plush
 
 import (
+	"errors"
 	"fmt"
 	"unsafe"
 
@@ -64,6 +65,10 @@ func (c *compiler) compile() (string, error) {
 			s := stmt
 			if c.curStmt != nil {
 				s = c.curStmt
+			}
+			var be *blockError
+			if errors.As(err, &be) {
+				s = be.stmt
 			}
 			return "", fmt.Errorf("line %d: %w", s.T().LineNumber, err)
 		}
